@@ -296,6 +296,15 @@ func VerifC03Chain() {
 		rt.Assert(follower.AddRawRecords(served[1:]) == nil, "follower-accepts-served-records")
 		rt.Assert(vC03Observe(follower) == final, "follower-equals-live")
 	}
+	// a replica whose head is still the root asks for what comes after its head
+	fromRoot, err := live.RecordsAfter(context.Background(), root.Id)
+	rt.Assert(err == nil, "serves-records-after-the-root")
+	late, _, err := vC03List([]*consensusproto.RawRecordWithId{root}, v, "other")
+	rt.Assert(err == nil, "build-late-follower")
+	if err == nil {
+		rt.Assert(late.AddRawRecords(fromRoot) == nil, "late-follower-accepts-served-records")
+		rt.Assert(vC03Observe(late) == final, "follower-at-the-root-catches-up")
+	}
 	rt.Reach("chain")
 }
 
